@@ -119,8 +119,8 @@ func (rw *RuntimeErrorWrapper) Error() string {
 
 	callStack := rw.vm.GetCallStack()
 	if len(callStack) > 0 {
-		// append head lines
-		headTrace := callStack[0]
+		// append head lines: the innermost frame (top of the call stack) is where the error arose
+		headTrace := callStack[len(callStack)-1]
 		module := headTrace.GetModule()
 		isNativeModule := module.GetID() == r.NATIVE_CODE_MODULE_ID || module.GetProgram() == nil
 		errLines = append(errLines, fmtErrorLocationHeadLine(isNativeModule, module.GetName(), headTrace.GetCurrentLine()+1))
@@ -132,10 +132,11 @@ func (rw *RuntimeErrorWrapper) Error() string {
 			}
 		}
 
-		// append body
-		for _, tr := range callStack[1:] {
+		// append body: the calls that are still active, from the innermost call site outwards
+		for i := len(callStack) - 2; i >= 0; i-- {
+			tr := callStack[i]
 			trModule := tr.GetModule()
-			isNativeModule = trModule.GetID() == r.NATIVE_CODE_MODULE_ID || module.GetProgram() == nil
+			isNativeModule = trModule.GetID() == r.NATIVE_CODE_MODULE_ID || trModule.GetProgram() == nil
 			if trModule != nil {
 				errLines = append(errLines, fmtErrorLocationBodyLine(isNativeModule, trModule.GetName(), tr.GetCurrentLine()+1))
 				// get line text
